@@ -342,6 +342,9 @@ Section PartB.
     unfold NoSpawn in *; simpl. rewrite Hm2. destruct J3 as [J3 | [J3 J4]]; [left; exact J3 | right; split; auto].
   Qed.
 
+  Ltac fl_close B4 := repeat split; auto; try discriminate; try contradiction;
+    try (match goal with H : fl_daemon_live _ = true |- _ => apply (B4 H) end).
+
   Lemma InvB_step : forall s l s', InvB c s -> fl_calm l = true -> fl_step c s l = Some s' -> InvB c s'.
   Proof.
     intros s l s' HB Hcalm Hs. pose proof HB as [B1 [B2 [B3 [B4 B5]]]].
@@ -363,8 +366,7 @@ Section PartB.
       destruct (p_view s) as [v|] eqn:Ev; [|discriminate]. destruct (p_flight s) eqn:Ef; try discriminate.
       injection Hs as <-. destruct B2 as [V1 [V2 [V3 V4]]].
       destruct (v_alive v) eqn:Hal.
-      2:{ unfold fl_cycle. rewrite Hal. simpl. unfold InvB, fl_set_op; simpl. repeat split; auto; try discriminate; try contradiction;
-          match goal with H : fl_daemon_live _ = true |- _ => apply (B4 H) end. }
+      2:{ unfold fl_cycle. rewrite Hal. simpl. unfold InvB, fl_set_op; simpl. fl_close B4. }
       pose proof (fl_cycle_alive c s v k Hal) as HC. cbv zeta in HC.
       set (sp := fl_spawning c v (p_daemon s) (p_forever s)) in *.
       set (a := fl_atoms c s v k (snd sp) (fl_h_delay c v k)) in *.
@@ -400,7 +402,7 @@ Section PartB.
           unfold a, fl_atoms in Hon, Hdel, Hb, Hsd; simpl in Hon, Hdel, Hb, Hsd.
           apply app_eq_nil in Hsd. destruct Hsd as [Hsd _].
           destruct (fl_spawning_delays c v (p_daemon s) (p_forever s) Hon Hsd) as [Hd1 Hd2]. fold sp in Hd1.
-          unfold Just. rewrite C1, C3, Hd1. split; [|split; [exact Hd2 | right; rewrite C2; split; auto]].
+          unfold Just. rewrite C1, C3, Hd1. split; [|split; [exact Hd2 | right; rewrite C1, C2; split; auto]].
           intros H1 H2. rewrite C5.
           assert (Hpre : match a_chg a with Some hs => fz_chg_prematch hs | None => false end = true).
           { unfold a, fl_atoms; simpl. rewrite H1, V2, H2. reflexivity. }
@@ -426,7 +428,7 @@ Section PartB.
           -- apply in_app_or in Hin. destruct Hin as [Hin|Hin]; [|apply Hnew; exact Hin].
              apply Hold. apply B5. apply in_or_app. left. exact Hin.
       + split.
-        * unfold snapB. rewrite C1. repeat split; auto. intros H; apply Hdone; auto.
+        * unfold snapB. rewrite C1. repeat split; auto.
         * split; [exact HB4|]. simpl. intros Hin.
           apply in_app_or in Hin. destruct Hin as [Hin|Hin].
           -- apply Hold. apply B5. apply in_or_app. left. exact Hin.
@@ -451,19 +453,19 @@ Section PartB.
           simpl flight_fns. intros Hin. apply HJ. apply in_app_or in Hin. destruct Hin as [Hin|Hin].
           -- apply B5. apply in_or_app. left. exact Hin.
           -- apply Hpend. exact Hin.
-      + injection Hs as <-. unfold InvB, fl_set_op; simpl. repeat split; auto; try discriminate; try contradiction.
+      + injection Hs as <-. unfold InvB, fl_set_op; simpl. fl_close B4.
     - (* LJson *)
       destruct (p_flight s) as [| |fresh fns] eqn:Ef; try discriminate. injection Hs as <-.
       assert (Hpend : In FAllow fns -> Just c s) by (intros H; apply B5; apply in_or_app; right; exact H).
       unfold fl_json.
-      destruct (fl_eqb _ _); [unfold InvB, fl_set_op; simpl; repeat split; auto; try discriminate; try contradiction|].
-      destruct (negb (v_alive (sv s))); [unfold InvB, fl_set_op; simpl; repeat split; auto; try discriminate; try contradiction|].
+      destruct (fl_eqb _ _); [unfold InvB, fl_set_op; simpl; fl_close B4|].
+      destruct (negb (v_alive (sv s))); [unfold InvB, fl_set_op; simpl; fl_close B4|].
       destruct (Nat.eqb (v_rv fresh) (v_rv (sv s)) && _).
       + destruct (fl_with_fins_proj (sv s) (fl_apply_fns (c_own c) fns (v_fins fresh))) as [_ [_ [P3 [P4 [P5 P6]]]]].
         assert (HB' : InvB c (fl_set_x s (fl_with_fins (sv s) (fl_apply_fns (c_own c) fns (v_fins fresh))) (g_foreign s))).
         { apply InvB_server_change; auto. rewrite P3; auto. }
         destruct HB' as [B1' [B2' [_ [B4' _]]]].
-        unfold InvB, fl_set_op; simpl. simpl in B1', B2', B4'. repeat split; auto; try discriminate; try contradiction.
+        unfold InvB, fl_set_op; simpl. simpl in B1', B2', B4'. fl_close B4'.
       + unfold InvB, fl_set_op; simpl. split; [exact B1|]. split; [exact B2|]. split; [exact I|]. split; [exact B4|].
         rewrite app_nil_r. intros Hin. destruct (Hpend Hin) as [J1 [J2 J3]]. unfold Just, NoSpawn in *; simpl. auto.
     - (* LDaemonExit *)
@@ -476,11 +478,11 @@ Section PartB.
         destruct (c_dmn c), (v_mdmn (sv s)), (p_forever s); simpl in *; try discriminate; auto; rewrite Hf; auto. }
       destruct (p_daemon s); try discriminate; injection Hs as <-; apply Hgo; auto.
     - (* LAbandon *)
-      destruct (p_daemon s); try discriminate. injection Hs as <-.
+      destruct (p_daemon s) eqn:Ed; try discriminate. injection Hs as <-.
       unfold InvB, fl_set_daemon; simpl. split; [exact B1|]. split; [exact B2|]. split; [exact B3|].
-      split; [intros; discriminate|]. intros Hin. destruct (B5 Hin) as [J1 [J2 J3]]. discriminate J2.
+      split; [intros; discriminate|]. intros Hin. destruct (B5 Hin) as [J1 [J2 J3]]. rewrite Ed in J2. discriminate J2.
     - (* LRestart *)
-      injection Hs as <-. unfold InvB; simpl. repeat split; auto; try discriminate; try contradiction.
+      injection Hs as <-. unfold InvB; simpl. fl_close B4.
   Qed.
 
   Lemma InvB_run : forall tr s s', InvB c s -> forallb fl_calm tr = true -> fl_run c s tr = Some s' -> InvB c s'.
@@ -637,11 +639,26 @@ Definition fl_k_quiet (h_finishes extra_merge : bool) : fl_orc :=
      k_sdelays_others := []; k_cdelays_others := []; k_h_finishes := h_finishes; k_other_rec := true;
      k_extra_merge := extra_merge |}.
 
-Definition fl_run_release (c : fl_cfg) (s : fl_state) (h_finishes : bool) : option fl_state :=
-  match fl_run c s [LEvent; LCycle (fl_k_quiet h_finishes true); LMerge; LJson] with
-  | Some s' => Some s'
-  | None => None
-  end.
+Lemma fl_cycle_extra_merge : forall c s v k, v_alive v = true -> k_extra_merge k = true ->
+  let sp := fl_spawning c v (p_daemon s) (p_forever s) in
+  let out := fz_decide (fl_atoms c s v k (snd sp) (fl_h_delay c v k)) in
+  exists r, p_flight (fl_cycle c s v k) = FMerge r (p_carried s ++ o_fns out) /\ sv (fl_cycle c s v k) = sv s /\
+            p_carried (fl_cycle c s v k) = p_carried s /\ p_view (fl_cycle c s v k) = None.
+Proof.
+  intros c s v k Hal Hk sp out. subst out. unfold fl_cycle. rewrite Hal. simpl negb. cbv iota.
+  fold sp. destruct sp as [d' dd]. simpl snd. rewrite Hk. simpl. eexists. repeat split; reflexivity.
+Qed.
+
+Lemma fl_apply_all_allow : forall own fns l, (forall f, In f fns -> f = FAllow) -> fns <> [] ->
+  fl_apply_fns own fns l = fl_allow own l.
+Proof.
+  intros own fns. induction fns as [|f fns IH]; intros l Hall Hne; [congruence|].
+  assert (Hf : f = FAllow) by (apply Hall; left; reflexivity). subst f.
+  change (fl_apply_fns own (FAllow :: fns) l) with (fl_apply_fns own fns (fl_allow own l)).
+  destruct fns as [|g fns']; [reflexivity|].
+  rewrite IH; [|intros f Hin; apply Hall; right; exact Hin | discriminate].
+  apply (fl_foreign_idem own l).
+Qed.
 
 Theorem fl_released_eventually : forall c s,
   p_flight s = FNone -> p_carried s = [] ->
@@ -653,50 +670,57 @@ Theorem fl_released_eventually : forall c s,
              p_carried s' = [] /\ p_flight s' = FNone.
 Proof.
   intros c s Hf Hc Hal Hdel Hown Hd.
-  destruct s as [x gf gd view carried flight daemon forever]. simpl in *. subst flight carried.
-  destruct x as [al rv fins deleting mdel mdmn rec]. simpl in *. subst al deleting.
-  assert (Hsp : fl_spawning c {| v_alive := true; v_rv := rv; v_fins := fins; v_deleting := true; v_mdel := mdel;
-                                v_mdmn := mdmn; v_rec := rec |} daemon forever = (daemon, [])).
-  { unfold fl_spawning; simpl. destruct daemon; simpl in *; try discriminate; reflexivity. }
-  unfold fl_run, fl_step at 1. cbn [p_view p_flight fl_set_op sv p_carried].
-  unfold fl_step at 1. cbn [p_view p_flight fl_set_op sv p_carried].
-  unfold fl_cycle. cbn [v_alive negb p_daemon p_forever fl_set_op]. rewrite Hsp.
-  cbn [fl_atoms fl_k_quiet k_spawn_others k_chg_others k_low_empty k_ctime k_timed_out k_sdelays_others k_cdelays_others
-       k_h_finishes k_other_rec k_extra_merge p_carried v_fins v_deleting v_alive v_mdel v_mdmn v_rec p_forever app].
-  unfold fl_h_delay, fl_h_invoked. cbn [k_h_finishes negb andb]. rewrite andb_false_r.
-  unfold fz_decide, fz_must. cbn [a_spawn a_chg a_blocked a_ongoing a_deleted a_patch0_empty a_low_empty a_ctime a_timed_out
-       a_sdelays a_cdelays app].
-  rewrite Hown.
-  unfold fz_spawn_requires, fz_chg_requires, fz_chg_prematch. cbn [existsb sh_excluded sh_reqfin sh_match ch_reqfin ch_prematch].
-  rewrite !orb_false_r.
-  set (ms := negb forever && (c_dmn c && (c_dmn c && mdmn))).
-  set (mc := c_del c && mdel).
-  assert (Hfns : forall m chg, exists n,
-     fz_opt (m && negb true && negb true) FBlock ++ fz_opt (negb m && true) FAllow ++
-     fz_opt (negb false && true && true && true) FAllow = FAllow :: n /\ (forall l, fl_apply_fns (c_own c) (FAllow :: n) l = fl_allow (c_own c) l) /\ chg = chg).
-  { intros m chg. destruct m; simpl; eexists; split; try reflexivity; split; auto; intros l; unfold fl_apply_fns; simpl; auto.
-    fold (fl_foreign (c_own c) l). fold (fl_foreign (c_own c) (fl_foreign (c_own c) l)). apply fl_foreign_idem. }
-  destruct mc eqn:Emc; destruct ms eqn:Ems; simpl.
-  all: unfold fl_step at 1; cbn [p_flight fl_set_op fl_set_x sv v_alive fl_with_rec fl_bump p_view p_carried g_foreign].
-  all: unfold fl_step at 1; cbn [p_flight fl_set_op fl_set_x sv v_alive fl_with_rec fl_bump p_view p_carried g_foreign].
-  all: unfold fl_json; cbn [sv v_fins v_rv v_alive v_deleting fl_set_op fl_set_x negb].
-  all: unfold fl_apply_fns; cbn [fold_left fl_apply_fn].
-  all: rewrite ?fl_foreign_idem; fold (fl_foreign (c_own c) fins); rewrite ?fl_foreign_idem.
-  all: try (change (fl_allow (c_own c) (fl_foreign (c_own c) fins)) with (fl_foreign (c_own c) (fl_foreign (c_own c) fins));
-            rewrite fl_foreign_idem).
-  all: assert (Hne : fl_eqb (fl_foreign (c_own c) fins) fins = false)
-         by (destruct (fl_eqb (fl_foreign (c_own c) fins) fins) eqn:E; [|reflexivity];
-             apply fl_eqb_eq in E; pose proof (fl_mem_allow (c_own c) fins) as Hq; unfold fl_foreign in E; rewrite E in Hq; congruence).
-  all: rewrite Hne, Nat.eqb_refl.
-  all: assert (Hna : fl_adds fins (fl_foreign (c_own c) fins) = false)
-         by (unfold fl_adds; rewrite <- not_true_iff_false; intros Hx; apply existsb_exists in Hx; destruct Hx as [f [Hin Hf]];
-             unfold fl_foreign, fl_allow in Hin; apply filter_In in Hin; destruct Hin as [Hin _];
-             apply negb_true_iff in Hf; unfold fl_mem in Hf; rewrite <- not_true_iff_false in Hf; apply Hf;
-             apply existsb_exists; exists f; split; [exact Hin | apply String.eqb_refl]).
-  all: rewrite Hna; cbn [andb negb].
-  all: eexists; split; [reflexivity|].
-  all: cbn [sv fl_set_op fl_set_x p_carried p_flight].
-  all: destruct (fl_with_fins_proj {| v_alive := true; v_rv := S rv; v_fins := fins; v_deleting := true; v_mdel := mdel;
-           v_mdmn := mdmn; v_rec := false |} (fl_foreign (c_own c) fins)) as [_ [P2 _]]; rewrite P2.
-  all: repeat split; auto; apply fl_mem_allow.
+  set (k := fl_k_quiet true true).
+  set (s1 := fl_set_op s (Some (sv s)) (p_carried s) (p_flight s)).
+  assert (E1 : fl_step c s LEvent = Some s1) by reflexivity.
+  assert (E2 : fl_step c s1 (LCycle k) = Some (fl_cycle c s1 (sv s) k)).
+  { simpl. rewrite Hf. reflexivity. }
+  destruct (fl_cycle_extra_merge c s1 (sv s) k Hal eq_refl) as [r [F1 [F2 [F3 F4]]]].
+  set (s2 := fl_cycle c s1 (sv s) k) in *.
+  (* the decision of this cycle *)
+  assert (Hsp : fl_spawning c (sv s) (p_daemon s1) (p_forever s1) = (p_daemon s, [])).
+  { unfold fl_spawning. rewrite Hdel. simpl. destruct (p_daemon s); simpl in Hd; try discriminate; reflexivity. }
+  rewrite Hsp in F1. simpl snd in F1.
+  set (a := fl_atoms c s1 (sv s) k [] (fl_h_delay c (sv s) k)) in *.
+  assert (Hcar : p_carried s1 = []) by exact Hc.
+  assert (Hhd : fl_h_delay c (sv s) k = []).
+  { unfold fl_h_delay. simpl. rewrite andb_false_r. reflexivity. }
+  assert (Hallow : In FAllow (o_fns (fz_decide a))).
+  { apply fz_release_when_finished; unfold a, fl_atoms; simpl; auto.
+    - rewrite Hal; reflexivity.
+    - rewrite Hhd; reflexivity.
+    - rewrite Hc; reflexivity. }
+  assert (Hnoblock : forall f, In f (o_fns (fz_decide a)) -> f = FAllow).
+  { intros f Hin. destruct f; [|reflexivity]. exfalso. apply fz_block_iff in Hin. destruct Hin as [_ [Hb _]].
+    unfold a, fl_atoms in Hb; simpl in Hb. congruence. }
+  rewrite Hcar in F1. simpl app in F1.
+  set (fns := o_fns (fz_decide a)) in *.
+  assert (Hne : fns <> []) by (intros E; rewrite E in Hallow; exact Hallow).
+  (* the merge-patch *)
+  assert (Hal2 : v_alive (sv s2) = true) by (rewrite F2; exact Hal).
+  set (x' := fl_with_rec (sv s2) r).
+  set (s3 := fl_set_op (fl_set_x s2 x' (g_foreign s2)) (p_view s2) (p_carried s2) (FJson x' fns)).
+  assert (E3 : fl_step c s2 LMerge = Some s3).
+  { simpl. rewrite F1, Hal2. destruct fns as [|f fns']; [congruence | reflexivity]. }
+  (* the JSON-patch *)
+  assert (Hto : fl_apply_fns (c_own c) fns (v_fins x') = fl_foreign (c_own c) (v_fins (sv s))).
+  { rewrite (fl_apply_all_allow _ _ _ Hnoblock Hne). unfold x'. simpl. rewrite F2. reflexivity. }
+  assert (Hfx : v_fins x' = v_fins (sv s)) by (unfold x'; simpl; rewrite F2; reflexivity).
+  assert (Hneq : fl_eqb (fl_foreign (c_own c) (v_fins (sv s))) (v_fins (sv s)) = false).
+  { destruct (fl_eqb (fl_foreign (c_own c) (v_fins (sv s))) (v_fins (sv s))) eqn:E; [|reflexivity].
+    apply fl_eqb_eq in E. pose proof (fl_mem_allow (c_own c) (v_fins (sv s))) as Hq. unfold fl_foreign in E.
+    rewrite E in Hq. congruence. }
+  assert (Hna : fl_adds (v_fins (sv s)) (fl_foreign (c_own c) (v_fins (sv s))) = false).
+  { unfold fl_adds. rewrite <- not_true_iff_false. intros Hx. apply existsb_exists in Hx. destruct Hx as [f [Hin Hfm]].
+    unfold fl_foreign, fl_allow in Hin. apply filter_In in Hin. destruct Hin as [Hin _].
+    apply negb_true_iff in Hfm. unfold fl_mem in Hfm. rewrite <- not_true_iff_false in Hfm. apply Hfm.
+    apply existsb_exists. exists f. split; [exact Hin | apply String.eqb_refl]. }
+  exists (fl_json c s3 x' fns). split.
+  - unfold fl_run. rewrite E1, E2. fold s2. rewrite E3. simpl. reflexivity.
+  - unfold fl_json. rewrite Hto, Hfx, Hneq.
+    assert (Hsv3 : sv s3 = x') by reflexivity. rewrite Hsv3.
+    assert (Hal3 : v_alive x' = true) by (unfold x'; simpl; exact Hal2). rewrite Hal3. simpl negb. cbv iota.
+    rewrite Nat.eqb_refl. simpl v_deleting. simpl v_fins. rewrite F2. change (sv s1) with (sv s). rewrite Hna. rewrite andb_false_r. simpl.
+    destruct (fl_with_fins_proj x' (fl_foreign (c_own c) (v_fins (sv s)))) as [_ [P2 _]]. rewrite P2.
+    repeat split; auto. apply fl_mem_allow.
 Qed.
